@@ -163,7 +163,67 @@ fn subset_cases(max_n: usize) -> impl Iterator<Item = Case> {
     })
 }
 
+/// Live: names stream vs the kernel's comm of every listed thread.
+pub fn check_live(c: &crate::props::c01::Case) -> Verdict {
+    use crate::vcore::dest::Dest;
+    use crate::vcore::target::*;
+    use crate::vcore::world::*;
+    init_scratch();
+    let scratch = Target::new_scratch();
+    let bt = crate::props::c01::build(c, &scratch);
+    let t = match Target::spawn(&bt.spec, scratch) {
+        Ok(t) => t,
+        Err(e) => return Verdict::Inconclusive(format!("target setup: {}", e.split(':').next().unwrap_or(""))),
+    };
+    if !t.wait_settled(&bt.spec) {
+        return Verdict::Inconclusive("target did not settle".into());
+    }
+    let opts = DumpOpts { blamed: t.pid, ..Default::default() };
+    let mut w = make_writer(t.pid, &opts);
+    let mut dest = Dest::new(vec![], 0);
+    let img = match run_dump(&mut w, &mut dest) {
+        DumpOutcome::Ok(v) => v,
+        DumpOutcome::Err(e) => return Verdict::pass_c(None, vec![format!("dump-error:{}", e.split('(').next().unwrap_or(""))]),
+        DumpOutcome::Panic(l, m) => return panic_verdict(&l, &m),
+    };
+    let d = md::decode(&img);
+    let Some(names) = d.thread_names.as_ref() else { return Verdict::viol("C15:live:no-names-stream", format!("{:?}", d.problems.first())) };
+    let listed: Vec<u32> = d.threads.as_ref().map(|t| t.iter().map(|t| t.tid).collect()).unwrap_or_default();
+    let mut want: Vec<(u32, String)> = vec![];
+    let (mut named, mut unnamed) = (0, 0);
+    for tid in &listed {
+        match comm_of(t.pid, *tid as i32).and_then(|c| expected_name(&c)) {
+            Some(n) => {
+                want.push((*tid, n));
+                named += 1;
+            }
+            None => unnamed += 1,
+        }
+    }
+    want.sort();
+    let mut got: Vec<(u32, String)> = names.iter().map(|(t, _, n)| (*t, n.clone().unwrap_or_default())).collect();
+    got.sort();
+    if got != want {
+        let miss = want.iter().find(|w| !got.contains(w));
+        let extra = got.iter().find(|g| !want.contains(g));
+        return Verdict::viol("C15:live:entries", format!("names stream differs from the kernel's comm values: missing {miss:?}, unexpected {extra:?}"));
+    }
+    let nt = named > 0 && unnamed > 0;
+    Verdict::pass_c(if nt { Some(fp_json(c)) } else { None }, if nt { vec!["mixed".into()] } else { vec![] })
+}
+
 pub fn run(ctx: &mut LaneCtx) {
+    ctx.run_sub(
+        SubSpec {
+            name: "live-names",
+            cases: (240, 20_000),
+            rule: "live targets with 1..24 threads whose names are unset / valid UTF-8 (0..15 bytes, multi-byte, whitespace) / not valid UTF-8; oracle = names stream pairs equal {(tid, comm trimmed)} for the listed threads whose comm is valid UTF-8, as read from /proc/pid/task/tid/comm; non-trivial = named and unnamed threads in the same dump; distinct = hash of case",
+            strategy: crate::props::c01::case_strategy(24).boxed(),
+            max_shrink_iters: 150,
+            log_current: true,
+        },
+        check_live,
+    );
     ctx.assume("direct part calls the re-exported thread_names_stream::write (hook H2) with the dumper's public thread list overwritten; 'name could not be read' is represented by name == None exactly as enumerate_threads does");
     ctx.run_enum(
         "exhaustive-subsets",
@@ -187,6 +247,7 @@ pub fn run(ctx: &mut LaneCtx) {
 pub fn replay(sub: &str, case: &Value) -> Verdict {
     match sub {
         "exhaustive-subsets" | "generated-lists" => replay_case::<Case>(case, check),
+        "live-names" => replay_case::<crate::props::c01::Case>(case, check_live),
         _ => Verdict::Inconclusive(format!("unknown sub {sub}")),
     }
 }
